@@ -35,6 +35,7 @@ func (c *Chan) doSlow(f func()) bool {
 	if c.done == 0 {
 		defer atomic.StoreUint32(&c.done, 1)
 		defer drpcdebug.Point("chan.doSlow.store")
+		drpcdebug.Point("chan.doSlow.init")
 		f()
 		return true
 	}
